@@ -32,13 +32,15 @@ impl Vm {
             if cycles % 8192 == 0 {
                 self.run_gc();
             }
-            if cycles == count {
-                self.run_gc();
-                return Ok(None);
-            }
             match self.run_one() {
                 Ok(true) => break,
-                Ok(false) => continue,
+                Ok(false) => {
+                    if cycles == count {
+                        self.run_gc();
+                        return Ok(None);
+                    }
+                    continue;
+                }
                 Err(e) => {
                     self.last_stacktrace = Some(StackTrace::new(
                         &self.stack,
